@@ -124,6 +124,16 @@ CHECKS = {
          "replayed through the model.",
          "Defects found and repaired (two fix: commits): swapRes and swapRandChargeRes failed for every sequence under the pinned interpreter/NumPy. CPython's random algorithms are abstracted by tapes.",
          "Lean 4 proof (List.Perm by construction, positional induction) + tape-replay differential testing with a recording RNG"),
+ "C18": ("PARTIAL. Lean theorems about the Wang-Landau state machine (every configuration, every proposal sequence = every schedule, every acceptance "
+         "decision function): an out-of-range proposal is never moved to and counts nothing; once inside the range always inside; an in-range proposal "
+         "is accepted iff the decision for g_old - g_new says so; a counted step adds ln f to g and 1 to H of the occupied bin only; the histogram total "
+         "counts the counted steps; f -> sqrt f, H -> 0, niter+1 exactly when a scheduled check finds every range bin at >= flatcrit x mean, never "
+         "between scheduled checks; the loop runs iff ln f > ln convergence; within an iteration g = g_start + ln f * H bin by bin (so per-iteration g "
+         "increments equal ln f times the final histogram); bin centres are midpoints of the equal partition. Tie: a guarded per-step trace hook in "
+         "run_normal_WL + a recording RNG; every step of short seeded runs is checked directly against the property and replayed through the model.",
+         "Needs the hook (LOCALCIDER_VERIF=1). Not proved: the distribution of proposals; float exp/log (ln f is exactly 2^-k in the model; g compared "
+         "within 1e-9); visits-are-rearrangements is C17's theorem chain and is re-checked on every trace step. Runs are capped at 1500 steps.",
+         "Lean 4 proof (state-machine invariants) + per-step trace conformance through a guarded hook"),
  "C20": ("Lean theorems on the character-level model: the rendering is prefix + for residue i (0-based) [space iff 10|i][<br> iff 50|i] + one span with "
          "the residue letter in its palette colour, in order + suffix; stripping tags and blanks recovers the sequence (colours contain no '>'); a "
          "dictionary is accepted iff all 20 one-letter keys are bound to one of the 17 documented names; a rejected update leaves the palette "
@@ -147,7 +157,7 @@ def main():
         "hooks": {"guard": "LOCALCIDER_VERIF",
                   "enable": "LOCALCIDER_VERIF=1 in the environment of the process that imports localcider (pure Python, no build step); ./check sets it",
                   "baseline_off_cmd": "cd /repo && /venv/bin/python -m pytest -ra -q -p no:cacheprovider --timeout=900 --continue-on-collection-errors",
-                  "source_commits": [], "add_only": True},
+                  "source_commits": ["e96c624 verification hook (guarded by LOCALCIDER_VERIF=1, add-only): per-step trace and optional step cap in WangLandauMachine.run_normal_WL"], "add_only": True},
         "engines": [{"name": "lean4-proof+tie", "path": "lean/ , tools/", "serves_properties": sorted(CHECKS),
                      "kind_free_text": "Lean 4 model + theorems (lake project lean/), translators tools/extract.py (+pyexpr2lean.py) regenerating lean/Cider/Gen on every run, native Lean driver lean/Driver.lean, Python correspondence harness tools/vf, entry point ./check"}],
         "checks": [], "not_applicable": [],
